@@ -73,6 +73,12 @@ CHECKS = {
          "is_shaded/is_pointfree/has_anchored_point/non_pointless_boxes are their region definitions; parsePlot(ascii_plot mu) = mu. "
          "Exhaustive correspondence over all 1042 meshes of length <=2 x all cells/pairs/directions with an independent oracle over all permutations <=6.",
          "plot round trip proved for cell size 1 only.", "5/C18"),
+ "C17": ("Lean 4 theorems: BiSC (mine+forb) output is sound up to n, complete up to m and irredundant for ALL finite inputs and all three representations; private containment tests = mesh containment; clean-up invariant + correspondence with brute-force judge",
+         "Proved for the model of mine/forb/bisc, for every finite list of permutations and all m<=n: bisc_sound, bisc_complete, bisc_irredundant, "
+         "hitting_sound, mine_covers, the private containment tests equal mesh containment / sub-mesh inclusion, maximal mesh pattern, clean-up bases hit "
+         "every tested bad permutation, representation independence. Tied to the code by all 1024 subsets of S_0..S_3 x all m<=n<=3 x list/dict/predicate and "
+         "random arbitrary sets inside S_<=5, with the three guarantees re-judged on the implementation's own output by an independent mesh containment.",
+         "auto_bisc (set-iteration-order dependent) and arbitrary list order are evaluated only.", "5/C17"),
 }
 
 PENDING = {}
